@@ -24,7 +24,7 @@ KERNELS = ["scale", "scale2", "pack", "pack2", "unpack", "sdot", "snrm2", "sgemv
 
 def plan(tier):
     if tier == "thorough":
-        return [{"variant": "plain", "workers": 16, "cases": 2600}]
+        return [{"variant": "plain", "workers": 16, "cases": 20000}]
     return [{"variant": "plain", "workers": 8, "cases": 340}]
 
 
